@@ -50,6 +50,16 @@ def wrap(v, t):
 
 
 def binop(op, a, b, t):
+    # linear symbolic values: order and equality are unknown unless syntactically identical
+    if op in ('==', '!=', '<', '<=', '>', '>=') and (is_lin(a) or is_lin(b)):
+        if a == b:
+            return int(op in ('==', '<=', '>='))
+        # a non-negative combination of non-negative symbols is never equal to a negative constant
+        for u, v in ((a, b), (b, a)):
+            if is_lin(u) and isinstance(v, int) and v < 0 and u[2] >= 0 and all(c > 0 and s_ in NONNEG for s_, c in u[1]):
+                if op in ('==', '!='):
+                    return int(op == '!=')
+        return None
     # a descriptor / pid token compares like a small positive integer
     if op in ('==', '!=', '<', '<=', '>', '>='):
         if isinstance(a, tuple) and a and a[0] in ('fd', 'pid') and isinstance(b, int):
@@ -98,6 +108,7 @@ def ptr_add(a, d):
 
 
 # ---- linear symbolic values: ('lin', ((symbol, coefficient), ...), constant)
+NONNEG = set()      # symbols a rule declares to be >= 0
 def is_lin(v):
     return isinstance(v, tuple) and len(v) == 3 and v[0] == 'lin'
 
